@@ -116,7 +116,7 @@ class Pipe:
     __slots__ = ("net", "cap", "policy", "q", "inflight", "rx", "rx_fin", "rx_rst",
                  "sent", "delivered", "last_arrival", "stall_at", "closed_tx",
                  "dst", "src", "name", "dead", "deliveries", "first_rx_time",
-                 "send_log", "held")
+                 "send_log", "held", "corrupt_at")
 
     def __init__(self, net, cap, policy, name):
         self.net = net
@@ -140,6 +140,7 @@ class Pipe:
         self.first_rx_time = None
         self.send_log = []     # (virtual time, stream offset, nbytes) per accepted send
         self.held = 0
+        self.corrupt_at = None  # absolute stream offset of one byte that is inverted in transit
 
     def free(self):
         return self.cap - self.inflight - len(self.rx)
@@ -155,6 +156,10 @@ class Pipe:
         self.send_log.append((net.now, self.sent, n, net.gseq))
         off = 0
         mv = bytes(data[:n])
+        if self.corrupt_at is not None and self.sent <= self.corrupt_at < self.sent + n:
+            k = self.corrupt_at - self.sent
+            mv = mv[:k] + bytes([mv[k] ^ 0xFF]) + mv[k + 1:]
+            net.log("corrupt", self.name)
         for delay, ln in self.policy.plan(self, n):
             chunk = mv[off:off + ln]
             off += ln
@@ -755,6 +760,11 @@ class SimLoop(selector_events.BaseSelectorEventLoop):
                              link.get("c2s") or WholePolicy(latency),
                              link.get("s2c") or WholePolicy(latency),
                              link.get("cap_c2s", 65536), link.get("cap_s2c", 65536))
+        # one byte inverted in transit at an absolute stream offset (per direction)
+        if link.get("corrupt_s2c") is not None:
+            s.tx.corrupt_at = link["corrupt_s2c"]
+        if link.get("corrupt_c2s") is not None:
+            c.tx.corrupt_at = link["corrupt_c2s"]
 
         def arrive():
             tgt = net.listeners.get((h, port))
